@@ -70,11 +70,20 @@ func (r *hRun) doStep(step bson.D) error {
 			return fmt.Errorf("step %d %s: %v", r.stepNo, show(step), err)
 		}
 	}
+	docsBefore := totalDocs(r.env.engine.Catalog())
 	res, perr := r.env.execStep(step)
 	if perr != nil {
 		return fmt.Errorf("step %d: %v", r.stepNo, perr)
 	}
 	op := asS(getD(step, "op"))
+	// conservation, independent of every other oracle: the database holds as
+	// many more (fewer) documents as the call reports inserted and upserted
+	// (deleted)
+	if d, known := expectedDocDelta(op, res); known && r.env.engine != nil {
+		if delta := totalDocs(r.env.engine.Catalog()) - docsBefore; delta != d {
+			return fmt.Errorf("step %d %s -> %s: the number of stored documents changed by %+d, the result reports %+d", r.stepNo, show(step), show(res), delta, d)
+		}
+	}
 	if isWriteOp(op) {
 		if asS(getD(res, "err")) != "" {
 			r.failedWrites++
